@@ -55,6 +55,13 @@ from radical.pilot.agent.scheduler.base        import \
 from radical.pilot.agent.executing.base        import \
                                           AgentExecutingComponent  # noqa: E402
 
+from radical.pilot.pmgr.launching.psi_j        import \
+                                          PilotLauncherPSIJ  # noqa: E402
+try:
+    import psij as _psij                                           # noqa: E402
+except ImportError:
+    _psij = None
+
 RP_DIR   = os.path.dirname(os.path.abspath(rp.__file__))
 CFG_DIR  = os.path.join(RP_DIR, 'configs')
 
@@ -633,6 +640,41 @@ def check_resolution(w, part, label, schema, rcfg, raw):
     else:
         violation('agent-config-missing', SITE_PP,
                   'agent_config=%r' % (acfg,), 'neither a name nor a dict')
+
+    # -- batch job launcher ------------------------------------------------------
+    # "can be turned into a batch job": the endpoint names one batch system
+    # next to any number of access mechanisms, in either order; the pilot
+    # launcher which speaks to batch systems (PSI/J, installed here) must
+    # accept it and pick the executor of that batch system.  Endpoints which
+    # name only an access mechanism (ssh://host) belong to the optional SAGA
+    # launcher and are an outcome class only.
+    ep     = str(rcfg.job_manager_endpoint or '')
+    tokens = ep.split(':')[0].split('+')
+    batch  = [t for t in tokens if t not in ('ssh', 'gsissh')]
+    if _psij is None:
+        part.assume('psij is not installed: launcher clause not evaluated')
+    elif len(batch) == 1 and batch[0]:
+        want = {'fork': 'local', 'pbspro': 'pbs'}.get(batch[0], batch[0])
+        lnch = PilotLauncherPSIJ.__new__(PilotLauncherPSIJ)
+        lnch._log  = _LOG
+        lnch._jex  = dict()
+        lnch._job_status_cb = lambda *a, **k: None
+        got = ok = None
+        try:
+            got = lnch._get_schema(rcfg)
+            ok  = lnch.can_launch(rcfg, [])
+        except Exception as e:
+            got = repr(e)
+        if want not in _psij.JobExecutor.get_executor_names():
+            part.outcome(('launcher', 'no-psij-executor', want))
+        elif not ok or got != want:
+            violation('no-batch-launcher', 'PilotLauncherPSIJ.can_launch',
+                      'job_manager_endpoint=%s' % ep.split(':')[0],
+                      'endpoint %s names batch system %r but the launcher '
+                      'resolves %r, can_launch=%r' % (ep, batch[0], got, ok))
+        names['launcher'] = 'psij:%s' % got
+    else:
+        names['launcher'] = 'access-only:%s' % '+'.join(tokens)
 
     part.outcome(('resolve', repr(sorted(names.items()))))
     return names
